@@ -9,6 +9,8 @@ import FxVerif.Proofs.C08Fam
 import FxVerif.Proofs.C08Hist
 import FxVerif.Model.C08Cache
 import FxVerif.Proofs.C08Cache
+import FxVerif.Model.C08Journal
+import FxVerif.Proofs.C08Journal
 import FxVerif.Gen.C04
 import FxVerif.Gen.C08
 import FxVerif.Gen.C08b
@@ -1062,5 +1064,72 @@ example : CoherentTx [.evm (balanceOf 1) 0, .nested (burn 0 50) 50 0] ⟨{ store
   rw [← coherentTxB_iff]; decide
 
 end Mixed
+
+/-! ### mixed transactions with sub-call frames whose failure the caller swallows (Model/C08Journal.lean, round 3) -/
+
+section Frames
+open FxVerif.Model.C08Cache FxVerif.Proofs.C08Cache
+
+/-- **a failed, swallowed sub-call frame is invisible**: for EVERY group of calls run as a frame from ANY StateDB state with
+consistent caches, if the frame fails before completing a keeper-level nested call, then after `RevertToSnapshot` the
+StateDB presents exactly the values it presented before the frame, would commit exactly the same storage, and its caches
+are consistent again — although the frame's dirty entries stay in `dirtyStorage` (holding their pre-write values) and
+everything it loaded stays in `originStorage`. -/
+theorem failed_frame_is_invisible (g : List MStep) (s : TxSt) (h : Cons s.o) (hn : noNestedSuccess g s = true)
+    (hf : (runTxF g s).2 = false) :
+    (s.o.revertTo (runTxF g s).1.o).view = s.o.view ∧ (s.o.revertTo (runTxF g s).1.o).commit = s.o.commit ∧
+    Cons (s.o.revertTo (runTxF g s).1.o) := by
+  obtain ⟨he, hc⟩ := runTxF_fail_ext g s.o s (ext_refl _) h hn hf
+  obtain ⟨v1, v2⟩ := revertTo_spec s.o _ h hc he
+  exact ⟨v1, by rw [commit_eq_view _ v2, commit_eq_view _ h, v1], v2⟩
+
+/-- **mixed_tx_coherent with frames**: for EVERY transaction made of contract programs, keeper-level nested calls and
+sub-call frames whose failure is swallowed, IF every step / frame is coherent where it runs (no nested call touches a slot
+the running StateDB has cached) and every frame that fails has completed no keeper-level call before failing, THEN the
+outcome, the final token storage and the final escrow are those of running the programs one after the other on one store
+with each failed frame skipped. -/
+theorem mixed_tx_frames_coherent (steps : List XStep) (st : Store) (esc : Nat)
+    (hc : CoherentX steps ⟨{ store := st }, esc⟩) : txResultX steps st esc = seqResultX steps st esc :=
+  txResultX_coherent steps st esc hc
+
+/-- I_sum under mixing with frames: FIP20 method calls, alone or grouped into swallowed frames, keep
+"Σ balances − totalSupply" when the transaction is coherent -/
+theorem mixed_tx_frames_preserve_sum_partial (hs : List Nat) (hn : hs.Nodup) (steps : List XStep)
+    (hm : ∀ x ∈ steps, ∀ s ∈ x.steps, ∃ m : Method, s.prog = m.prog ∧ ∀ a ∈ m.holders, a ∈ hs) (st : Store) (esc : Nat)
+    (hc : CoherentX steps ⟨{ store := st }, esc⟩) :
+    tokDiff hs (txResultX steps st esc).2.1 = tokDiff hs st := by
+  rw [txResultX_coherent steps st esc hc]
+  simp only [seqResultX]
+  cases hr : runSeqX steps (st, esc) with
+  | none => rfl
+  | some r => exact runSeqX_tokDiff hs hn steps hm st esc r.1 r.2 hr
+
+/-- the hypotheses are satisfiable by a transaction with a failing frame (a transfer of more than the balance), a direct
+transfer, a failing `bridgeCall` frame on another holder and a successful frame -/
+example : CoherentX [.attempt [.evm (transfer 0 1 200) 0], .plain (.evm (transfer 0 1 5) 0), .attempt [.nested (burn 3 999) 999 0],
+    .attempt [.evm (approve 0 3 7) 0, .evm (transferFrom 3 0 2 7) 0]] ⟨{ store := store0 50 0 0 100 0 }, 100⟩ := by
+  rw [← coherentXB_iff]; decide
+
+/-- witness 4 (a reverted frame caches what it read): the contract TRIES a transfer of 200 out of 50 and swallows the
+failure — the failed `transfer` has loaded the balance slot into `originStorage`, which no revert undoes; `bridgeCall` then
+converts 20 through a nested call, and a later transfer of 5 starts from the cached 50: 20 tokens too many -/
+theorem mixed_tx_failed_frame_stale_read_creates_tokens :
+    let r := txResultX [.attempt [.evm (transfer 0 1 200) 0], .plain (.nested (burn 0 20) 20 0), .plain (.evm (transfer 0 1 5) 0)]
+      (store0 50 0 0 100 0) 100
+    r.1 = true ∧ r.2.1 (.bal 0) = 45 ∧ r.2.1 (.bal 1) = 5 ∧ r.2.1 .supply = 80 ∧
+    tokDiff [0, 1, 2] r.2.1 = tokDiff [0, 1, 2] (store0 50 0 0 100 0) + 20 := by
+  decide
+
+/-- witness 5 (a reverted write stays in `dirtyStorage`): a frame transfers 10 and then fails (`bridgeCall` of 999); the
+revert puts the old balance back INTO THE DIRTY SET; `bridgeCall` then converts all 50 through a nested call; a transfer of
+5 starts from the dirty 50 and its write-back recreates 45 of the 50 burned tokens -/
+theorem mixed_tx_reverted_write_creates_tokens :
+    let r := txResultX [.attempt [.evm (transfer 0 1 10) 0, .nested (burn 0 999) 999 0], .plain (.nested (burn 0 50) 50 0),
+      .plain (.evm (transfer 0 1 5) 0)] (store0 50 0 0 100 0) 100
+    r.1 = true ∧ r.2.1 (.bal 0) = 45 ∧ r.2.1 (.bal 1) = 5 ∧ r.2.1 .supply = 50 ∧ r.2.2 = 50 ∧
+    tokDiff [0, 1, 2] r.2.1 = tokDiff [0, 1, 2] (store0 50 0 0 100 0) + 50 := by
+  decide
+
+end Frames
 
 end FxVerif.Props.C08
